@@ -144,10 +144,17 @@ def refreshed_searchers(run, rng):
         w = world.World(adocs, [("commit", sorted(adocs)[:4], {"merge": False})], storage="ram")
         try:
             s = w.ix.searcher(weighting=wobj)
+            # (the searcher has been used before the commit: whatever its model object remembers of the collection
+            # - averages, document frequencies - belongs to the old generation)
+            for t in ([1], [2], [1, 2], [2, 1]):
+                q = query.Or([query.Term("body", world.term_text(t)), query.Term("title", world.term_text(t), boost=2.0)])
+                list(s.search(q, limit=None))
             w.apply(("commit", sorted(adocs)[4:], {"merge": False}))
             s2 = s.refresh()
             ok = True
-            with w.ix.searcher(weighting=wobj) as ref:
+            # (the reference: a new searcher with a new object of the same model)
+            fresh = dict(all_weightings())[wname]
+            with w.ix.searcher(weighting=fresh) as ref:
                 for t in ([1], [2], [1, 2], [2, 1]):
                     q = query.Or([query.Term("body", world.term_text(t)), query.Term("title", world.term_text(t), boost=2.0)])
                     a = [(h.docnum, repr(h.score)) for h in s2.search(q, limit=None)]
